@@ -82,3 +82,65 @@ pub fn seq(a: &[String]) {
         k += 1;
     }
 }
+
+/// A typed command whose request is `c<k>` and whose response is the `id` field of the frame it is given.
+#[derive(Clone)]
+struct Tagged(u8);
+impl mpd_client::commands::Command for Tagged {
+    type Response = (u8, String);
+    fn command(&self) -> Command { Command::new(std::str::from_utf8(&[b'c', b'a' + self.0]).unwrap()) }
+    fn response(self, mut frame: mpd_protocol::response::Frame) -> Result<Self::Response, mpd_client::responses::TypedResponseError> {
+        Ok((self.0, frame.get("id").unwrap_or_default()))
+    }
+}
+
+fn frames_for(n: usize) -> Vec<mpd_protocol::response::Frame> {
+    let mut wire = b"OK MPD 0.23.5\n".to_vec();
+    let mut body = Vec::new();
+    for i in 0..n { body.extend_from_slice(format!("id: {i}\nlist_OK\n").as_bytes()); }
+    body.extend_from_slice(b"OK\n");
+    let mut c = Connection::connect(Pipe { segs: vec![std::mem::take(&mut wire), body], next: 0, out: Vec::new(), reads: 0 }).unwrap();
+    let r = c.receive().unwrap().unwrap();
+    r.into_iter().map(|f| f.unwrap()).collect()
+}
+
+fn show_list(l: Option<CommandList>) {
+    match l {
+        None => println!("list=none"),
+        Some(l) => { let mut c = conn(); c.send_list(l).unwrap(); println!("wire={}", hex(&c.into_inner().out)); }
+    }
+}
+
+/// typed tuple <n> | typed vec <n> : request bytes of the typed list and the (command, frame id) pairing of its responses
+pub fn typed(a: &[String]) {
+    use mpd_client::commands::CommandList as TL;
+    let n: usize = a[1].parse().unwrap();
+    let t = |i: u8| Tagged(i);
+    let show = |v: Vec<(u8, String)>| { for (k, id) in v { println!("pair={k}:{id}"); } };
+    if a[0] == "vec" {
+        let v: Vec<Tagged> = (0..n as u8).map(t).collect();
+        show_list(v.command_list());
+        show(v.responses(if n == 0 { Vec::new() } else { frames_for(n) }).unwrap());
+        return;
+    }
+    macro_rules! tup { ($($i:expr),+) => {{
+        let l = ($(t($i),)+);
+        show_list(l.command_list());
+        let r = l.responses(frames_for(n)).unwrap();
+        tup!(@show r; $($i),+);
+    }};
+    (@show $r:ident; $a:expr) => { show(vec![$r.0]) };
+    (@show $r:ident; $a:expr, $b:expr) => { show(vec![$r.0, $r.1]) };
+    (@show $r:ident; $a:expr, $b:expr, $c:expr) => { show(vec![$r.0, $r.1, $r.2]) };
+    (@show $r:ident; $a:expr, $b:expr, $c:expr, $d:expr) => { show(vec![$r.0, $r.1, $r.2, $r.3]) };
+    (@show $r:ident; $a:expr, $b:expr, $c:expr, $d:expr, $e:expr) => { show(vec![$r.0, $r.1, $r.2, $r.3, $r.4]) };
+    (@show $r:ident; $a:expr, $b:expr, $c:expr, $d:expr, $e:expr, $f:expr) => { show(vec![$r.0, $r.1, $r.2, $r.3, $r.4, $r.5]) };
+    (@show $r:ident; $a:expr, $b:expr, $c:expr, $d:expr, $e:expr, $f:expr, $g:expr) => { show(vec![$r.0, $r.1, $r.2, $r.3, $r.4, $r.5, $r.6]) };
+    (@show $r:ident; $a:expr, $b:expr, $c:expr, $d:expr, $e:expr, $f:expr, $g:expr, $h:expr) => { show(vec![$r.0, $r.1, $r.2, $r.3, $r.4, $r.5, $r.6, $r.7]) };
+    }
+    match n {
+        1 => tup!(0), 2 => tup!(0, 1), 3 => tup!(0, 1, 2), 4 => tup!(0, 1, 2, 3), 5 => tup!(0, 1, 2, 3, 4),
+        6 => tup!(0, 1, 2, 3, 4, 5), 7 => tup!(0, 1, 2, 3, 4, 5, 6), 8 => tup!(0, 1, 2, 3, 4, 5, 6, 7),
+        _ => panic!("arity"),
+    }
+}
